@@ -345,7 +345,7 @@ pub fn jobs_for(prop: &str, thorough: bool) -> Vec<Job> {
                 c.policy = 255;
                 js.push(job(s, "correct use: distinct actors", c, None, 1200));
             }
-            for s in ["OS", "MO", "MMO", "LWW"] {
+            for s in ["OS", "MO", "MM", "MMO", "LWW"] {
                 let mut c = Cfg::base(3, 10, Delivery::Any, mon::VMERGE);
                 c.misuse = true;
                 js.push(job(s, "misuse: one actor shared by all replicas", c, None, 3000));
@@ -395,7 +395,7 @@ fn eval_keys(prop: &str) -> Vec<&'static str> {
         "C02" => vec!["law_comm", "law_assoc", "law_idem", "law_followup"],
         "C03" => vec!["law_hybrid", "law_hybrid_oppath", "law_followup", "spec"],
         "C04" | "C05" | "C06" => vec!["spec"],
-        "C07" => vec!["ctx_read", "ctx_derive", "ctx_next_dot", "ctx_rm_known"],
+        "C07" => vec!["ctx_read", "ctx_derive", "ctx_derive_any", "ctx_next_dot", "ctx_rm_known"],
         "C08" => vec!["spec", "table"],
         "C09" => vec!["dup", "stale"],
         "C11" => vec!["spec", "mono", "vop", "vmerge"],
@@ -584,4 +584,34 @@ fn counter_witness<S: Sut>(seed: u64, j: &Job, cname: &str, prop: &str) -> Optio
         }
     }
     None
+}
+
+
+/// Non-deciding smoke workload for interpreters/sanitizers (Miri, valgrind): a handful of short histories
+/// of every instantiation with all monitors on. It decides no property; it only shows that the monitored
+/// executions are free of undefined behaviour as far as the tool can see (DESIGN §8, §12.5).
+pub fn smoke(n: u64, steps: usize) -> u64 {
+    crate::taint::set_active(["R1", "R2", "R3", "R4", "R5", "R6", "R7"].iter().map(|s| s.to_string()).collect());
+    let mut actions = 0u64;
+    for s in all_types(false) {
+        let mut c = Cfg::base(3, steps, weakest(s), mon::SPEC | mon::CONV | mon::DUP | mon::STALE | mon::SERDE | mon::CTX | mon::VOP | mon::VMERGE | mon::SEQ | mon::ORDER);
+        c.merges = has_merge(s);
+        c.dups = true;
+        c.shadows = true;
+        c.policy = 255;
+        let st: CampStats = dispatch!(s, smoke_one, n, c);
+        actions += st.actions;
+        println!("smoke {s}: histories={} actions={} ops={} violations(unexplained)={}", st.histories, st.actions, st.ops, st.violations.len());
+    }
+    actions
+}
+fn smoke_one<S: Sut>(n: u64, c: Cfg) -> CampStats {
+    let mut st = CampStats::default();
+    for h in 0..n {
+        let o = gen_history::<S>(crate::rng::mix(99, h), c, None);
+        st.histories += 1;
+        st.actions += o.script.len() as u64;
+        st.ops += o.world.ops.len() as u64;
+    }
+    st
 }
